@@ -269,6 +269,12 @@ class Evaluator:
                           tuple((n, self.zip_struct(f, v, bd[n])) for n, v in a.args[1]))
         return f(a, b)
 
+    def zip_struct_many(self, vals: List[T]) -> T:
+        out = vals[0]
+        for v in vals[1:]:
+            out = self.zip_struct(lambda x, y: x if x is y else self.mk_phi([x, y]), out, v)
+        return out
+
     def mk_phi(self, alts: List[T]) -> T:
         flat: List[T] = []
         for a in alts:
